@@ -531,6 +531,11 @@ type IfaceContract struct {
 	Methods map[string]*Contract
 }
 
+type Theorem struct {
+	Pkg, Name, Tag, File string
+	Line                 int
+}
+
 type GhostFunc struct {
 	Pkg    string
 	Name   string
@@ -584,6 +589,7 @@ type ContractFile struct {
 	Axioms    []*Axiom
 	Impls     [][2]string // (concrete type, interface)
 	Consts    []string
+	Theorems  []*Theorem
 }
 
 // splitTag splits "expr   // C02.sign" into (expr, tag).
@@ -616,7 +622,7 @@ func ParseContractFile(path, pkg string) (*ContractFile, error) {
 		body := strings.TrimPrefix(t, "//@")
 		lines = append(lines, ln{body, i + 1})
 	}
-	keywords := []string{"opaque-arith", "nowrite", "aimalso", "aimexempt", "aimcheck", "assumes", "exports", "dyncalls", "claims", "grants", "forbids", "footprint", "iterator", "count", "update", "func", "assume", "interface", "method", "requires", "ensures", "modifies", "invariant", "safety", "ghost", "model", "repr", "axiom", "implements", "lemma", "yields", "property", "noinline", "const", "expands", "inline"}
+	keywords := []string{"theorem", "opaque-arith", "nowrite", "aimalso", "aimexempt", "aimcheck", "assumes", "exports", "dyncalls", "claims", "grants", "forbids", "footprint", "iterator", "count", "update", "func", "assume", "interface", "method", "requires", "ensures", "modifies", "invariant", "safety", "ghost", "model", "repr", "axiom", "implements", "lemma", "yields", "property", "noinline", "const", "expands", "inline"}
 	isKw := func(s string) bool {
 		f := strings.Fields(s)
 		if len(f) == 0 {
@@ -885,6 +891,11 @@ func ParseContractFile(path, pkg string) (*ContractFile, error) {
 			} else {
 				return nil, fail(l, fmt.Errorf("bad implements"))
 			}
+		case "theorem":
+			// theorem name   // tag  — the ghost macro `name` (bool) holds for all arguments: proved on its own, usable via by(name(args))
+			s, tag := splitTag(rest)
+			cf.Theorems = append(cf.Theorems, &Theorem{Pkg: pkg, Name: strings.TrimSpace(s), Tag: tag, File: path, Line: l.n})
+			cur = nil
 		case "ghost":
 			// ghost func name(a T, b U) R [= expr]
 			s, _ := splitTag(rest)
